@@ -308,3 +308,12 @@ M('c10-parse-host-idna-bare-host', 'C10', 'R6', U, "        return (host, defaul
   "        return (host.encode('idna').decode('ascii'), default_port)\n", also=('C09',))
 M('c10-parse-host-uppercases-ipv6', 'C10', 'R6', U, "            return (host[1:-1], default_port)\n",
   "            return (host[1:-1].upper(), default_port)\n")
+
+# ---- auto-mutation seed sa-am03554 (R4: the table byte and the rest of the token are combined by bytes concatenation on every
+# decoder path; `-`/`*`/... between two bytes objects raise TypeError past the KeyError arm)
+M('c10-list-path-bytes-minus', 'C10', 'R4', U, "decoded.append(_HEX_TO_BYTE[token_partial] + token[2:])",
+  "decoded.append(_HEX_TO_BYTE[token_partial] - token[2:])")
+M('c10-bytearray-path-bytes-mod', 'C10', 'R4', U, "decoded_uri += _HEX_TO_BYTE[token_partial] + token[2:]",
+  "decoded_uri += _HEX_TO_BYTE[token_partial] % token[2:]")
+M('c10-inline-path-byte-after-rest', 'C10', 'R4', U, "reencoded_uri += _HEX_TO_BYTE[token_partial] + token[2:]",
+  "reencoded_uri += token[2:] + _HEX_TO_BYTE[token_partial]")
